@@ -96,6 +96,8 @@ func (r *returnsRunner) execute(cmd *cobra.Command, args []string) error {
 		AccountFilter:   predicate.ByName[*model.Account](r.accounts.Regex()),
 		CommodityFilter: predicate.ByName[*model.Commodity](r.commodities.Regex()),
 	}
+	// the period ends must exist as days before the journal is built
+	j.Days(partition.EndDates())
 	err = j.Build().Process(
 		journal.ComputePrices(valuation),
 		check.Check(),
